@@ -168,8 +168,18 @@ impl Collector for Custom {
     }
 }
 
+#[allow(deprecated)]
 fn lp(n: &str, v: &str) -> proto::LabelPair {
     let mut l = proto::LabelPair::default();
+    // half of the pairs are first given another name which is cleared again (both models offer clear_name)
+    if n.len() % 2 == 1 || v.len() % 2 == 1 {
+        l.set_name("scratch".to_string());
+        l.clear_name();
+        if !l.name().is_empty() {
+            l.set_value(format!("clear_name left {:?} behind", l.name()));
+            return l;
+        }
+    }
     l.set_name(n.to_string());
     l.set_value(v.to_string());
     l
@@ -222,7 +232,41 @@ fn custom_family(rng: &mut Rng, name: &str, fpool: &[f64]) -> MetricFamily {
         }
         ms.push(m);
     }
-    mf.set_metric(ms);
+    // the mutators of the data model, in the order a collector that recycles a family would use them
+    #[allow(deprecated)]
+    match rng.below(4) {
+        0 => mf.set_metric(ms),
+        1 => {
+            // fill, empty again through take_metric, fill for good
+            mf.set_metric(ms.clone());
+            let _ = mf.take_metric();
+            mf.set_metric(ms);
+        }
+        2 => {
+            // fill through mut_metric after a set / take round trip
+            mf.set_metric(ms);
+            let taken = mf.take_metric();
+            for m in taken {
+                mf.mut_metric().push(m);
+            }
+        }
+        _ => {
+            // the name is set to something else first, cleared, and set again; the labels travel through take_label
+            mf.set_name("recycled_family".to_string());
+            mf.clear_name();
+            let leftover = mf.name().to_string();
+            mf.set_name(format!("{}{}", leftover, name));
+            for m in ms.iter_mut() {
+                let mut l = m.take_label();
+                for p in l.iter_mut() {
+                    let v = p.value().to_string();
+                    p.set_value(v);
+                }
+                m.set_label(l);
+            }
+            mf.set_metric(ms);
+        }
+    }
     mf
 }
 
